@@ -16,6 +16,7 @@ import PnVerif.Model.HeaderText
       each followed by ` WIDE` when a 64-bit header word ≥ 2^63 was read (outside the modelled range)
     TRACE <chunk> <hexfile>   instrumented window run (Safety.decodeTrace):
         <number of accesses> <number of unsafe accesses> <stuck: true|false> <number of fetches> <bytesFetched>
+        BIG   (the header announces data more than 64 KiB beyond the end of the file: not traced)
 
   64-bit fields are printed as the C prints them (two's complement, `long long`).
 -/
@@ -48,6 +49,10 @@ def showOpen (v : Variant) (file : Bytes) : String :=
     s!"OK {h.fmt.version} {nr} {h.dims.length} {h.vars.length} {h.gatts.length} {ui} {ds} {vs} F {bytesFetchedV v 262144 file}{wd w}"
 
 def showTrace (chunk : Nat) (file : Bytes) : String :=
+  -- the instrumented run follows the zero-extending reader: a file that announces data far beyond its end is not traced
+  match openGuardedS false 65536 file with
+  | .big _ _ _ => "BIG"
+  | _ =>
   let t := decodeTrace chunk file
   let bad := (t.filter (fun a => ¬ a.Safe)).length
   let nf := (t.filter (fun a => a.kind == .readDst)).length
